@@ -11,8 +11,8 @@ open P9 P9.Session P9.Client
 
 def errnoOfKind (kind : List Char) (code : Nat) : Nat :=
   match String.ofList kind with
-  | "L" | "WL" => extract .linuxErrno code
-  | "S" | "PE" => extract .sysErrno code
+  | "L" | "WL" | "JL" => extract .linuxErrno code     -- (JL: inside errors.Join; errors.As searches the tree)
+  | "S" | "PE" | "MS" => extract .sysErrno code       -- (MS: one of several %w)
   | "N" => extract .notExist code
   | "X" => extract .exist code
   | "P" => extract .permission code
